@@ -450,7 +450,10 @@ def gen_rle_hostile(rng, tier):
             if tier == "quick":
                 shapes = [sh for sh in shapes if rng.random() < 0.45]
             for sh in shapes:
-                totals = [0] if not hdr else sorted({cap, max(cap, 1) - 1, sum(min(a, 1 << 20) for a, _ in sh) % (cap + 1)})
+                # with a header the decoder reads runs until `total` elements are produced: a well-formed stream
+                # holds at least that many (the decoder takes no input length, so reading on is the caller's contract)
+                S = sum(a & M64 for a, _ in sh)
+                totals = [0] if not hdr else sorted({min(cap, S), max(min(cap, S), 1) - 1, cap + 1, 0})
                 for total in totals:
                     ops.append(f"rle.cap cap={hx(cap)} hdr={hdr} total={hx(total)} " +
                                " ".join(f"{hx(a & M64)} {hx(v)}" for a, v in sh))
